@@ -102,8 +102,11 @@ def identity_scenario(rng):
 
 
 def with_scenarios(gen, share=0.15):
-    """mixes the directed identity scenarios into a random profile"""
-    return lambda rng: identity_scenario(rng) if rng.random() < share else gen(rng)
+    """mixes the directed identity / late-key scenarios into a random profile"""
+    def pick(rng):
+        r = rng.random()
+        return identity_scenario(rng) if r < 0.5 else late_key_scenario(rng) if r < 0.75 else refused_edit_scenario(rng)
+    return lambda rng: pick(rng) if rng.random() < share else gen(rng)
 
 
 def rotation_scenario(rng, disable=False):
@@ -168,4 +171,69 @@ def shrink_scenario(rng):
     out.append(f'RC {nmpk - 1} 0')
     out += ['RF 0 1', 'RF 1 0', 'RF 2 1']
     out += [f'DE {k} {e}' for k in range(3) for e in range(2)]
+    return out
+
+
+def late_key_scenario(rng):
+    """Directed: encapsulations are made, THEN an attribute is disabled (or the rights are merely rotated) and the master key
+    updated, THEN new keys are generated: a key generated late must still open every earlier encapsulation its policy
+    covers and whose secret the master key still holds (a disabled attribute keeps decrypting)."""
+    x = hist.x
+    out = ['SETUP', f"{rng.choice(['AA', 'AH'])} {x('D')}"]; nmpk = 1; nenc = 0
+    names = rng.sample(['a', 'b', 'c', 'd'], rng.randint(2, 4))
+    for a in names: out.append(f"AT {x('D')} {x(a)} {rng.choice('01')} -")
+    other = rng.random() < 0.5
+    if other: out += [f"AA {x('S')}", f"AT {x('S')} {x('s')} {rng.choice('01')} -"]
+    out.append('UPD'); nmpk += 1
+    for a in names:
+        out.append(f'EN {nmpk - 1} {x("D::" + a + (" && S::s" if other and rng.random() < 0.3 else ""))}'); nenc += 1
+    v = rng.choice(names)
+    out.append(f"DS {x('D')} {x(v)}")
+    if rng.random() < 0.3: out.append(f"DS {x('D')} {x(rng.choice(names))}")
+    out.append('UPD'); nmpk += 1
+    pols = [f'D::{v}', '*', f'D::{names[-1]}', f'D::{v} || D::{names[0]}'] + ([f'D::{v} && S::s'] if other else [])
+    nk = 0
+    for pol in rng.sample(pols, rng.randint(2, len(pols))): out.append(f'KG {x(pol)}'); nk += 1
+    if rng.random() < 0.4: out.append('RT MSK')
+    out += [f'DE {k} {e}' for k in range(nk) for e in range(nenc)]
+    out += [f"RF {k} {rng.choice('01')}" for k in range(nk)]
+    out += [f'DE {k} {e}' for k in range(nk) for e in range(nenc)]
+    return out
+
+
+def refused_edit_scenario(rng):
+    """Directed: a batch of REFUSED structure edits (rename onto an existing name, duplicate attribute with the other hint,
+    duplicate dimension of either kind, unknown 'after', deletion of an unknown name) between the issue of keys and their
+    use; a refused edit must leave no trace: afterwards every name still designates the attribute it designated, with its
+    rank, hint and status - checked by encapsulating for every attribute and opening with every key, then deleting /
+    renaming for real and doing it again."""
+    x = hist.x
+    out = ['SETUP', f'AH {x("D")}']; nmpk = 1
+    hn = rng.sample(['a', 'b', 'c', 'd'], rng.randint(2, 4)); prev = None
+    for a in hn:
+        out.append(f"AT {x('D')} {x(a)} {rng.choice('01')} {x(prev) if prev and rng.random() < 0.7 else '-'}"); prev = a
+    an = rng.sample(['p', 'q', 'r'], rng.randint(1, 3))
+    out.append(f'AA {x("S")}')
+    for a in an: out.append(f"AT {x('S')} {x(a)} {rng.choice('01')} -")
+    out.append('UPD'); nmpk += 1
+    atts = [('D', a) for a in hn] + [('S', a) for a in an]
+    nk = 0
+    for d, a in atts: out.append(f'KG {x(d + "::" + a)}'); nk += 1
+    ne = 0
+    for d, a in atts: out.append(f'EN {nmpk - 1} {x(d + "::" + a)}'); ne += 1
+    # refused edits
+    bad = [f'RN {x("D")} {x(hn[0])} {x(hn[-1])}', f'RN {x("D")} {x(hn[-1])} {x(hn[0])}', f'RN {x("S")} {x(an[0])} {x(an[-1])}',
+           f"AT {x('D')} {x(hn[0])} 1 -", f"AT {x('D')} {x(hn[-1])} 0 -", f"AT {x('S')} {x(an[0])} 1 -", f"AT {x('S')} {x(an[0])} 0 -",
+           f'AA {x("D")}', f'AH {x("D")}', f'AA {x("S")}', f'AH {x("S")}', f"AT {x('D')} {x('z')} 0 {x('nope')}", f'DT {x("D")} {x("nope")}', f'DS {x("S")} {x("nope")}']
+    for l in rng.sample(bad, rng.randint(2, 6)): out.append(l)
+    if rng.random() < 0.7: out.append('UPD'); nmpk += 1
+    if rng.random() < 0.3: out.append('RT MSK')
+    for d, a in atts: out.append(f'EN {nmpk - 1} {x(d + "::" + a)}'); ne += 1
+    for d, a in atts[:3]: out.append(f'KG {x(d + "::" + a)}'); nk += 1
+    out += [f'DE {k} {e}' for k in range(nk) for e in range(ne)][:140]
+    # now a real deletion / rename of a name that was the TARGET of a refused rename, update, refresh
+    out.append(rng.choice([f'DT {x("D")} {x(hn[-1])}', f'RN {x("D")} {x(hn[-1])} {x("w")}', f'DT {x("S")} {x(an[-1])}']))
+    out.append('UPD'); nmpk += 1
+    out += [f"RF {k} {rng.choice('01')}" for k in range(min(nk, 5))]
+    out += [f'DE {k} {e}' for k in range(min(nk, 5)) for e in range(ne)][:80]
     return out
